@@ -196,6 +196,48 @@ pub fn exec(case: &Value) -> Value {
                     b.push(i.sample(&mut g2) as i64);
                     b.push(Bernoulli(0.5).sample(&mut g2) as i64);
                 }
+                "iterskip" => {
+                    // samples() is the sequence of sample() calls, also when an adaptor skips items:
+                    // the item reached by skip / nth / step_by equals the one reached by plain calls
+                    let d3 = Uniform([-2.0f32, 1.0, 10.0]..[3.0, 2.0, 20.0]);
+                    let kk = (st % 5) as usize;
+                    match st % 3 {
+                        0 => {
+                            let x = d3.samples(&mut g1).nth(kk).unwrap();
+                            a.extend(x.iter().map(|c| key(*c)));
+                            for _ in 0..kk {
+                                d3.sample(&mut g2);
+                            }
+                            b.extend(d3.sample(&mut g2).iter().map(|c| key(*c)));
+                        }
+                        1 => {
+                            let xs: Vec<_> = VectorsInUnitBall.samples(&mut g1).skip(kk).take(2).collect();
+                            a.extend(xs.iter().flat_map(|v| [key(v.x()), key(v.y()), key(v.z())]));
+                            for _ in 0..kk {
+                                VectorsInUnitBall.sample(&mut g2);
+                            }
+                            for _ in 0..2 {
+                                let v = VectorsInUnitBall.sample(&mut g2);
+                                b.extend([key(v.x()), key(v.y()), key(v.z())]);
+                            }
+                        }
+                        _ => {
+                            let t = (f.clone(), (i.clone(), Bernoulli(0.5)));
+                            let xs: Vec<_> = t.samples(&mut g1).step_by(kk + 1).take(2).collect();
+                            a.extend(xs.iter().flat_map(|(x, (y, z))| [key(*x), *y as i64, *z as i64]));
+                            for j in 0..(kk + 2) {
+                                let (x, (y, z)) = t.sample(&mut g2);
+                                if j == 0 || j == kk + 1 {
+                                    b.extend([key(x), y as i64, z as i64]);
+                                }
+                            }
+                        }
+                    }
+                    // (how far the generator has advanced differs between an exhausted take() and plain
+                    // calls only by whole samples; compare the values, not the end state)
+                    g1 = Xorshift64(1);
+                    g2 = Xorshift64(1);
+                }
                 "iarray" => {
                     let x = Uniform([0i32, -10]..[10, 15]).sample(&mut g1);
                     a.extend(x.iter().map(|c| *c as i64));
@@ -379,9 +421,40 @@ pub fn gen(args: &Args, out: &mut dyn Write) {
             emit(out, json!({"op": "norm", "s": limbs(prev), "dist": if i % 4 == 0 { "disk" } else { "ball" }, "kind": "in"}));
         }
     }
+    // unit circle / sphere on states whose two (three) next outputs all sit next to the middle of the
+    // mantissa range: a tiny, non-zero candidate that still has to come out with unit length.
+    // Found by search over the free low bits of the first output (the driver only picks inputs).
+    {
+        let near_mid = |y: u64| { let m = (y >> 41) as i64; (m - (1 << 22)).abs() <= 1400 };
+        let mut found = [0usize; 2];
+        let want = if thorough { [40usize, 3] } else { [12, 1] };
+        let mut tries = 0u64;
+        while (found[0] < want[0] || found[1] < want[1]) && tries < 60_000_000 {
+            tries += 1;
+            let d = rng.below(2801) as i64 - 1400;
+            let y1 = ((((1i64 << 22) + d) as u64) << 41) | (rng.next() >> 23);
+            let st = inv_step(y1);
+            if st == 0 {
+                continue;
+            }
+            let mut g = Xorshift64(st);
+            g.next_bits();
+            if !near_mid(g.next_bits()) {
+                continue;
+            }
+            if found[0] < want[0] {
+                found[0] += 1;
+                emit(out, json!({"op": "norm", "s": limbs(st), "dist": "circle", "kind": "on"}));
+            }
+            if found[1] < want[1] && near_mid(g.next_bits()) {
+                found[1] += 1;
+                emit(out, json!({"op": "norm", "s": limbs(st), "dist": "sphere", "kind": "on"}));
+            }
+        }
+    }
     // composite distributions and reproducibility
     for i in 0..(if thorough { 30_000 } else { 3_000 }) {
-        let what = ["array", "vec", "point", "tuple", "iarray", "same"][i % 6];
+        let what = ["array", "vec", "point", "tuple", "iarray", "same", "iterskip"][i % 7];
         emit(out, json!({"op": "seq", "s": limbs(rng.next() | 1), "what": what}));
     }
 }
